@@ -86,7 +86,10 @@ class VA:
             cb = b.const_value()
             if cb is not None and cb != 0:
                 return a * Poly.const(Fraction(1) / cb)
-            return a * Poly.leaf(('inv', nosite(t[3])))
+            den = nosite(strip_all(t[3]))
+            if den[0] == 'call' and isinstance(den[1], str) and 'Vector2D' in den[1] and den[1].endswith('::length') and len(den[2]) == 1:
+                den = ('call', 'euclid::Vector2D::length', (nosite(strip_all(den[2][0])),))
+            return a * Poly.leaf(('inv', den))
         if h == 'un' and t[1] == 'Neg':
             return -self.sp(t[2], d)
         if h == 'field' and t[2] in ('x', 'y') and t[3] in ('euclid::Point2D', 'euclid::Vector2D'):
@@ -117,6 +120,16 @@ class VA:
                 x = self.vec(a[0], d)
                 return (-x[0], -x[1])
             if (name.startswith('euclid::Vector2D') or name.startswith('euclid::Point2D')) and name.endswith('::new') and len(a) == 2:
+                return (self.sp(a[0], d), self.sp(a[1], d))
+            if name.split('::')[-1] in ('to_vector', 'to_point') and len(a) == 1:
+                return self.vec(a[0], d)
+            if 'Vector2D' in name and name.endswith('::normalize') and len(a) == 1:
+                # v / |v|: 1/|v| is one symbol, the reciprocal of length(v) (whatever path the method is named by)
+                v0 = nosite(strip_all(a[0]))
+                x = self.vec(v0, d)
+                il = Poly.leaf(('inv', ('call', 'euclid::Vector2D::length', (v0,))))
+                return (x[0] * il, x[1] * il)
+            if name.split('::')[-1] in ('vec2', 'point2') and len(a) == 2:
                 return (self.sp(a[0], d), self.sp(a[1], d))
             if d < self.depth:
                 it = self.inline(t)
